@@ -86,6 +86,12 @@ class NetSim(BaseEngine):
     # ------------------------------------------------------------------ generation
     def gen(self, prop, seed, idx, tier):
         rng = rng_for(prop, seed, idx, 'plan')
+        if idx % 60 == 31:
+            # threads: a reader iterating a socket port while another thread closes it
+            from .ports_conc import ENGINE as PC
+            plan = PC.gen_sock_close(prop, seed, idx, rng)
+            plan['scn'] = 4
+            return plan
         scn = weighted(rng, ((1, 5), (2, 2), (3, 3)))
         plan = {'prop': prop, 'scn': scn, 'mutate': rng.random() < 0.3,
                 'sleep_time': pick(rng, (1e-4, 1e-3, 1e-2, 0.5)),
@@ -167,6 +173,8 @@ class NetSim(BaseEngine):
     # ------------------------------------------------------------------ plumbing
     def abort_cleanup(self):
         self._restore()
+        from .ports_conc import ENGINE as PC
+        PC.abort_cleanup()
 
     def _restore(self):
         saved = getattr(self, '_saved', None)
@@ -189,6 +197,9 @@ class NetSim(BaseEngine):
         return clock, net
 
     def run(self, prop, plan, keep_log=False):
+        if plan.get('scn') == 4:
+            from .ports_conc import ENGINE as PC
+            return PC.run(prop, plan, keep_log=keep_log)
         log = Log(keep_log)
         stats = collections.Counter()
         cov = set()
@@ -762,6 +773,10 @@ class NetSim(BaseEngine):
 
     # ------------------------------------------------------------------ shrinking
     def shrink(self, prop, plan):
+        if plan['scn'] == 4:
+            from .ports_conc import ENGINE as PC
+            yield from PC.shrink(prop, plan)
+            return
         if plan['scn'] == 1:
             yield from shrink_list_at(plan, ('msgs',), min_len=1)
             yield from shrink_list_at(plan, ('rt',))
